@@ -3,32 +3,9 @@
    fact is decided for all 10^6 values of the microseconds by evaluation (a finite domain, swept completely as
    1000 x 1000), the whole part by the theorem about fixed_parse (LitProofs.fixed_parse_spec). *)
 From Coq Require Import List NArith Bool Lia Arith.
-From Verif Require Import Base.Text Model.Literals Model.TimeRender Proofs.LitProofs.
+From Verif Require Import Base.Text Model.Literals Model.TimeRender Proofs.LitProofs Proofs.TimeSweep.
 Import ListNotations.
 Open Scope N_scope.
-
-Definition digit_ok (d : N) : bool := d <? 10.
-
-(* what is needed of the fraction digits of one value *)
-Definition frac_ok (micro : N) : bool :=
-  let d := fraction_of_second micro in
-  forallb digit_ok d && (Nat.leb 2 (length d)) && (Nat.leb (length d) 6) &&
-  (horner 10 d * 10 ^ N.of_nat (15 - length d) =? micro * 1000000000).
-
-Fixpoint all_below (n : nat) (p : N -> bool) : bool :=
-  match n with
-  | O => true
-  | S n' => p (N.of_nat n') && all_below n' p
-  end.
-
-Lemma all_below_spec n p : all_below n p = true -> forall k, (k < N.of_nat n) -> p k = true.
-Proof.
-  induction n as [|n IH]; intros H k Hk; [lia|]. cbn [all_below] in H. apply andb_prop in H. destruct H as [H1 H2].
-  destruct (N.eq_dec k (N.of_nat n)) as [->|Hne]; [exact H1|]. apply IH; [exact H2|lia].
-Qed.
-
-Lemma sweep : all_below 1000 (fun hi => all_below 1000 (fun lo => frac_ok (hi * 1000 + lo))) = true.
-Proof. vm_cast_no_check (eq_refl true). Qed.   (* evaluated once, by the kernel's virtual machine, at Qed *)
 
 Lemma frac_ok_all micro : micro < 1000000 -> frac_ok micro = true.
 Proof.
@@ -88,3 +65,48 @@ Example old_text_was_wrong :
   | None => None
   end = Some (12, 0, 0, 500000000).
 Proof. vm_compute. reflexivity. Qed.
+
+(* ---- dates ---- *)
+Definition reads (f : N -> text) (v : N) : bool := match integer_new (f v) with Some x => x =? v | None => false end.
+
+Lemma year_sweep : all_below 100 (fun hi => all_below 100 (fun lo => reads year_text (hi * 100 + lo))) = true.
+Proof. vm_cast_no_check (eq_refl true). Qed.
+Lemma two_sweep : all_below 100 (reads two_text) = true.
+Proof. vm_cast_no_check (eq_refl true). Qed.
+
+Lemma reads_spec f v : reads f v = true -> integer_new (f v) = Some v.
+Proof. unfold reads. destruct (integer_new (f v)) as [x|]; [|discriminate]. intro H. apply N.eqb_eq in H. congruence. Qed.
+
+Lemma year_read y : y < 10000 -> integer_new (year_text y) = Some y.
+Proof.
+  intro H. apply reads_spec. pose proof (all_below_spec 100 _ year_sweep (y / 100)) as A. cbv beta in A.
+  assert (H1 : y / 100 < N.of_nat 100) by (change (N.of_nat 100) with 100; apply N.div_lt_upper_bound; lia).
+  specialize (A H1). pose proof (all_below_spec 100 _ A (y mod 100)) as Bq. cbv beta in Bq.
+  assert (H2 : y mod 100 < N.of_nat 100) by (change (N.of_nat 100) with 100; apply N.mod_lt; lia).
+  specialize (Bq H2). replace (y / 100 * 100 + y mod 100) with y in Bq; [exact Bq|].
+  rewrite N.mul_comm. apply N.div_mod. lia.
+Qed.
+
+Lemma two_read v : v < 100 -> integer_new (two_text v) = Some v.
+Proof. intro H. apply reads_spec. apply (all_below_spec 100 _ two_sweep v). change (N.of_nat 100) with 100. exact H. Qed.
+
+Lemma days_in_month_le y m : days_in_month y m <= 31.
+Proof.
+  unfold days_in_month.
+  repeat match goal with |- context [if ?c then _ else _] => destruct c end; lia.
+Qed.
+
+Theorem date_round_trip y m d : date_literal y m d = Some (y, m, d) -> date_read_back y m d = Some (y, m, d).
+Proof.
+  intro H. unfold date_read_back. pose proof H as H0. unfold date_literal in H0.
+  destruct ((y <=? 9999) && (1 <=? m) && (m <=? 12) && (1 <=? d) && (d <=? days_in_month y m)) eqn:E; [|discriminate].
+  repeat (apply andb_prop in E; destruct E as [E ?]).
+  repeat match goal with Hx : (_ <=? _) = true |- _ => apply N.leb_le in Hx end.
+  pose proof (days_in_month_le y m).
+  rewrite (year_read y) by lia. rewrite (two_read m) by lia. rewrite (two_read d) by lia. exact H.
+Qed.
+
+Example date_examples :
+  date_text 2024 2 29 = [50; 48; 50; 52; 45; 48; 50; 45; 50; 57] /\ date_read_back 2024 2 29 = Some (2024, 2, 29) /\
+  date_text 1 1 1 = [48; 48; 48; 49; 45; 48; 49; 45; 48; 49] /\ date_literal 9999 12 31 = Some (9999, 12, 31).
+Proof. vm_compute. repeat split; reflexivity. Qed.
